@@ -221,6 +221,41 @@ def downsampleSeqsText (seed m : Nat) (recs : List Rec) : Option String :=
   if recs.length < m then none
   else some (String.ofList (renderFasta 60 (selectn rollRng64 m recs (Rng64.create (UInt64.ofNat seed)))))
 
+/-! ## esl-shuffle -A: whole-alignment shuffles act on columns -/
+
+def transposeCols (rows : List (List Char)) : List (List Char) :=
+  (List.range (rows.headD []).length).map fun c => rows.map fun r => r.getD c '-'
+
+def untransposeCols (cols : List (List Char)) (nrows : Nat) : List (List Char) :=
+  (List.range nrows).map fun i => cols.map fun col => col.getD i '-'
+
+/-- `esl_msashuffle_Shuffle`: the `esl_rsq_CShuffle` loop over alignment columns -/
+def msaColShuffle {σ : Type} (roll : σ → Nat → Nat × σ) (rows : List (List Char)) (s : σ) : List (List Char) × σ :=
+  let r := cshuffle roll (transposeCols rows) s
+  (untransposeCols r.1 rows.length, r.2)
+
+/-- `esl_msashuffle_Bootstrap`: every output column is an independently drawn input column -/
+def bootstrapCols {σ : Type} (roll : σ → Nat → Nat × σ) (cols : Array (List Char)) : Nat → σ → List (List Char) → List (List Char) × σ
+  | 0, s, acc => (acc.reverse, s)
+  | n + 1, s, acc =>
+    let rs := roll s cols.size
+    bootstrapCols roll cols n rs.2 (cols.getD rs.1 [] :: acc)
+
+def msaBootstrap {σ : Type} (roll : σ → Nat → Nat × σ) (rows : List (List Char)) (s : σ) : List (List Char) × σ :=
+  let cols := transposeCols rows
+  let r := bootstrapCols roll cols.toArray cols.length s []
+  (untransposeCols r.1 rows.length, r.2)
+
+/-- the shuffled columns are a permutation of the input columns, for every roll function -/
+theorem msaColShuffle_cols_perm {σ : Type} (roll : σ → Nat → Nat × σ) (rows : List (List Char)) (s : σ) :
+    (cshuffle roll (transposeCols rows) s).1.Perm (transposeCols rows) := cshuffle_perm roll _ s
+
+def msaShuffleSamples (boot : Bool) (rows : List (List Char)) : Nat → Rng → List (List (List Char)) → List (List (List Char))
+  | 0, _, acc => acc.reverse
+  | n + 1, g, acc =>
+    let r := if boot then msaBootstrap rollRng rows g else msaColShuffle rollRng rows g
+    msaShuffleSamples boot rows n r.2 (r.1 :: acc)
+
 /-- `easel downsample -S`: reservoir over the record offsets, sorted back into file order -/
 def downsampleBigIndices (seed m n : Nat) : List Nat :=
   ((selectn rollRng64 m (List.range n) (Rng64.create (UInt64.ofNat seed))).toArray.qsort (· < ·)).toList
